@@ -3,69 +3,93 @@
    Model: Model/Coupling1d.v (couplingmarkovchain.py: probability_to_right_jump, coupling_state, next_level,
    simulate_diffusion_with_coupling) over Model/Grid.v (refine), Model/Chain.v (cells, rates), Model/Drift.v.
    `mass` = fine_process.model.mass, the Levy measure truncated to the grid's end points (which refine does not move):
-   an arbitrary additive non-negative interval function over Q; `mid` = grid.middle. *)
-From Coq Require Import ZArith QArith List.
+   an arbitrary interval function over Q, additive and non-negative on intervals not containing the origin;
+   mc / mf = grid.middle at the coarse / refined level (only the arithmetic mean is a proved instance). *)
+From Coq Require Import ZArith QArith List Lia.
 From RV Require Import Base.QB Model.Grid Gen.GenC01Trunc Gen.GenC04Triplet Model.Chain Model.Drift Model.Coupling1d
   Model.CouplingNd Proofs.C13_Grid Proofs.C01_Chain Proofs.C03_Coupling1d Proofs.C03_CouplingNd.
 Import ListNotations.
 Open Scope Q_scope.
 
 Section Measure.
-  Variable mid : Q -> Q -> Q.
-  Hypothesis mid_between : forall x y, x < y -> x < mid x y /\ mid x y < y.
-  Hypothesis mid_refl : forall x, mid x x == x.
-  Hypothesis mid_proper : forall x x' y y', x == x' -> y == y' -> mid x y == mid x' y'.
+  (* mc = grid.middle of the coarse level l-1 (refine inserts mc x_i x_{i+1}; the coarse chain's cells use it);
+     mf = grid.middle of the refined level l (the fine chain's cells and the coupling use it).  For CTMCGrid both are the
+     arithmetic mean; CTMCGridProbabilityStep.middle reads grid.h, hence differs between the two levels. *)
+  Variables mc mf : Q -> Q -> Q.
+  Hypothesis mc_between : forall x y, x < y -> x < mc x y /\ mc x y < y.
+  Hypothesis mc_refl : forall x, ~ x == 0 -> mc x x == x.      (* used at the two end points of the axis only *)
+  Hypothesis mf_between : forall x y, x < y -> x < mf x y /\ mf x y < y.
+  Hypothesis mf_refl : forall x, ~ x == 0 -> mf x x == x.
   Variable mass : Q -> Q -> Q.
-  Hypothesis mass_add : forall a b c, a <= b -> b <= c -> mass a c == mass a b + mass b c.
-  Hypothesis mass_pos : forall a b, a <= b -> 0 <= mass a b.
+  (* additive / non-negative on intervals NOT containing the origin (finite for every Levy measure) *)
+  Hypothesis mass_add : forall a b c, a <= b -> b <= c -> (c < 0 \/ 0 < a) -> mass a c == mass a b + mass b c.
+  Hypothesis mass_pos : forall a b, a <= b -> (b < 0 \/ 0 < a) -> 0 <= mass a b.
   Hypothesis mass_proper : forall a a' b b', a == a' -> b == b' -> mass a b == mass a' b'.
 
   (* after refine: even indices carry the old axis, odd indices the old cell boundaries; so the level-(l-1) cell of the
      coarse state x_{2j} is [x_{2j-1}, x_{2j+1}], clamped at the two ends *)
   Theorem C03_coarse_grid_is_even_indices : forall xs o h, admissible xs o h ->
-    let xs' := refine_axis mid xs in
+    let xs' := refine_axis mc xs in
     length xs' = (2 * length xs - 1)%nat
     /\ (forall j, (j < length xs)%nat -> nthq xs' (2 * j) = nthq xs j)
-    /\ (forall j, (1 <= j)%nat -> (j < length xs)%nat -> nthq xs' (2 * j - 1) = cell_lo mid xs j)
-    /\ (forall j, (j + 1 < length xs)%nat -> nthq xs' (2 * j + 1) = cell_hi mid xs j)
-    /\ cell_lo mid xs' 0 = cell_lo mid xs 0
-    /\ cell_hi mid xs' (2 * (length xs - 1)) = cell_hi mid xs (length xs - 1).
-  Proof. intros xs o h A. apply (coarse_grid_is_even_indices mid) with (o := o) (h := h); assumption. Qed.
+    /\ (forall j, (1 <= j)%nat -> (j < length xs)%nat -> nthq xs' (2 * j - 1) = cell_lo mc xs j)
+    /\ (forall j, (j + 1 < length xs)%nat -> nthq xs' (2 * j + 1) = cell_hi mc xs j)
+    /\ cell_lo mf xs' 0 == cell_lo mc xs 0
+    /\ cell_hi mf xs' (2 * (length xs - 1)) == cell_hi mc xs (length xs - 1).
+  Proof. intros xs o h A. apply (coarse_grid_is_even_indices mc mf) with (o := o) (h := h); assumption. Qed.
 
   (* coupling_state on the refined grid: an even fine increment (a coarse-grid state) is copied unchanged; an odd one is
      moved to its left or right neighbour, the two coarse states adjacent to it; for every coupling uniform u *)
   Theorem C03_copy_or_adjacent_1d : forall xs o u, incr xs -> xs <> [] ->
-    let xs' := refine_axis mid xs in
+    let xs' := refine_axis mc xs in
     (forall i, (i < length xs)%nat ->
-        coupling_state mid mass xs' (2 * o) (Z.of_nat (2 * i) - Z.of_nat (2 * o)) u = Some (nthq xs i)
+        coupling_state mf mass xs' (2 * o) (Z.of_nat (2 * i) - Z.of_nat (2 * o)) u = Some (nthq xs i)
         /\ nthq xs' (2 * i) = nthq xs i)
     /\ (forall i v, (i + 1 < length xs)%nat ->
-        coupling_state mid mass xs' (2 * o) (Z.of_nat (2 * i + 1) - Z.of_nat (2 * o)) u = Some v ->
+        coupling_state mf mass xs' (2 * o) (Z.of_nat (2 * i + 1) - Z.of_nat (2 * o)) u = Some v ->
         (v = nthq xs i \/ v = nthq xs (i + 1))
         /\ nthq xs i < nthq xs' (2 * i + 1) < nthq xs (i + 1)).
-  Proof. intros xs o u Hi N. apply (copy_or_adjacent mid); assumption. Qed.
+  Proof. intros xs o u Hi N. apply (copy_or_adjacent mc mf); assumption. Qed.
 
-  (* the probability used for an odd increment is a probability *)
-  Theorem C03_prob_right_unit : forall xs p pr, incr xs -> (p < length xs)%nat ->
-    prob_right_at mid mass xs p = Some pr -> 0 <= pr <= 1.
-  Proof. intros xs p pr Hi Hp. apply (prob_right_unit mid); assumption. Qed.
+  (* THE LAW OF coupling_state: which side the threshold selects.  For an odd fine index p with right-probability pr the
+     coupled index is p+1 exactly for the uniforms u < pr and p-1 exactly for u >= pr; so for u uniform on [0,1) the two
+     targets have probabilities |[0,pr)| = pr and |[pr,1)| = 1-pr, and that is what prob_to (used by the telescoping
+     theorem) assigns; coupling_state returns the state at coupling_index.  A swap of the two branches breaks this. *)
+  Theorem C03_coupling_law : forall xs p pr, Nat.even p = false -> (p + 1 < length xs)%nat ->
+    prob_right_at mf mass xs p = Some pr ->
+    (forall u, coupling_index mf mass xs p u = Some (p + 1)%nat <-> u < pr)
+    /\ (forall u, coupling_index mf mass xs p u = Some (p - 1)%nat <-> pr <= u)
+    /\ prob_to mf mass xs p (p + 1) == pr /\ prob_to mf mass xs p (p - 1) == 1 - pr
+    /\ (forall t, t <> (p + 1)%nat -> t <> (p - 1)%nat -> prob_to mf mass xs p t == 0).
+  Proof. intros xs p pr. apply (coupling_law mf). Qed.
+  Theorem C03_coupling_law_even : forall xs p u, Nat.even p = true ->
+    coupling_index mf mass xs p u = Some p /\ prob_to mf mass xs p p == 1 /\ (forall t, t <> p -> prob_to mf mass xs p t == 0).
+  Proof. intros xs p u. apply (coupling_law_even mf). Qed.
+  Theorem C03_coupling_state_is_index : forall xs o2 p u, (p < length xs)%nat ->
+    coupling_state mf mass xs (2 * o2) (Z.of_nat p - Z.of_nat (2 * o2)) u = option_map (nthq xs) (coupling_index mf mass xs p u).
+  Proof. intros xs o2 p u. apply (coupling_state_is_index mf). Qed.
+
+  (* the probability used for an odd increment is a probability (states other than the origin) *)
+  Theorem C03_prob_right_unit : forall xs o h p pr, admissible xs o h -> (p < length xs)%nat -> p <> o ->
+    prob_right_at mf mass xs p = Some pr -> 0 <= pr <= 1.
+  Proof. intros xs o h p pr A. apply (prob_right_unit_admissible mf) with (h := h); assumption. Qed.
 
   (* TELESCOPING: for every coarse state y = x_j (j <> origin) of ANY admissible axis, the sum over the fine states of
      (fine rate) x P(coupling sends that fine state to y) is the rate of y in the chain built on the un-refined axis.
      States of rate 0, where the code would divide 0/0, are never sampled and contribute 0. *)
   Theorem C03_telescoping_1d : forall xs o h, admissible xs o h ->
     forall j, (j < length xs)%nat -> j <> o ->
-      inflow mid mass (refine_axis mid xs) (2 * o) (2 * j) == q_entry mid mass xs o j.
-  Proof. intros xs o h A. apply (telescoping_admissible mid) with (h := h); assumption. Qed.
+      inflow mf mass (refine_axis mc xs) (2 * o) (2 * j) == q_entry mc mass xs o j.
+  Proof. intros xs o h A. apply (telescoping_admissible mc mf) with (h := h); assumption. Qed.
 
   (* ... and the fine mass coupled to a coarse increment of 0 is exactly the part of the old central cell
      [cell boundary left of 0, cell boundary right of 0] outside the new central cell *)
   Theorem C03_sent_to_origin : forall xs o h, admissible xs o h ->
-    let xs' := refine_axis mid xs in
-    inflow mid mass xs' (2 * o) (2 * o)
-    == mass (nthq xs' (2 * o - 1)) (cell_lo mid xs' (2 * o)) + mass (cell_hi mid xs' (2 * o)) (nthq xs' (2 * o + 1))
-    /\ nthq xs' (2 * o - 1) = cell_lo mid xs o /\ nthq xs' (2 * o + 1) = cell_hi mid xs o.
-  Proof. intros xs o h A. apply (sent_to_origin_admissible mid) with (h := h); assumption. Qed.
+    let xs' := refine_axis mc xs in
+    inflow mf mass xs' (2 * o) (2 * o)
+    == mass (nthq xs' (2 * o - 1)) (cell_lo mf xs' (2 * o)) + mass (cell_hi mf xs' (2 * o)) (nthq xs' (2 * o + 1))
+    /\ nthq xs' (2 * o - 1) = cell_lo mc xs o /\ nthq xs' (2 * o + 1) = cell_hi mc xs o.
+  Proof. intros xs o h A. apply (sent_to_origin_admissible mc mf) with (h := h); assumption. Qed.
 End Measure.
 
 (* the level state machine (any functions giving the fine chain's squared diffusion coefficient and drift on a grid):
@@ -116,6 +140,9 @@ Proof. vm_compute. repeat split. Qed.
 
 Print Assumptions C03_coarse_grid_is_even_indices.
 Print Assumptions C03_copy_or_adjacent_1d.
+Print Assumptions C03_coupling_law.
+Print Assumptions C03_coupling_law_even.
+Print Assumptions C03_coupling_state_is_index.
 Print Assumptions C03_prob_right_unit.
 Print Assumptions C03_telescoping_1d.
 Print Assumptions C03_sent_to_origin.
